@@ -160,6 +160,9 @@ struct Driver<'a> {
     is_str: bool,
     // oracle state
     oracle: Vec<Item>,
+    /// extras (`Carry::store`) after each item of one-shot lexing, and when it ended (stateful definitions)
+    oracle_ex: Vec<u64>,
+    oracle_ex_end: u64,
     s_eff_len: usize,
     ref_ok: bool,
     // driver state
@@ -170,7 +173,10 @@ struct Driver<'a> {
     /// highest stream offset any consumer incarnation has seen so far
     high_water: usize,
     committed: Vec<Item>,
-    none_points: Vec<(usize, usize)>,
+    /// extras the consumer carries into its next lexer (0 for stateless definitions)
+    carry: u64,
+    /// (file offset of a None, items committed before it, extras the lexer held at that None)
+    none_points: Vec<(usize, usize, u64)>,
     crash_after: Option<usize>,
     stats: Stats,
 }
@@ -192,8 +198,13 @@ fn item_tag(text: &str) -> String {
 }
 
 impl<'a> Driver<'a> {
-    fn one_shot(&self, s: &[u8]) -> Vec<Item> {
-        self.def.lex(s, false, 0, s.len() + 2).items
+    /// one-shot lexing of the effective input by an ordinary lexer (extras start at their default)
+    fn set_oracle(&mut self) {
+        let s = &self.s[..self.s_eff_len];
+        let out = self.def.lex(s, false, 0, s.len() + 2);
+        self.oracle = out.items;
+        self.oracle_ex = out.extras_after;
+        self.oracle_ex_end = out.extras_end;
     }
 
     /// reference lexing agrees with the code's own one-shot lexing on the whole effective input
@@ -212,7 +223,7 @@ impl<'a> Driver<'a> {
     }
 
     /// P1 for one freshly committed item (file offsets)
-    fn commit(&mut self, it: Item, from_partial: bool) -> Result<(), Violation> {
+    fn commit(&mut self, it: Item, from_partial: bool, ex_after: u64) -> Result<(), Violation> {
         let idx = self.committed.len();
         if it.end <= it.start {
             fail!("L1", format!("empty:{}", item_tag(&it.text)), "definition {}: item {}@{}..{} has an empty span (no progress)", self.def.name, it.text, it.start, it.end);
@@ -234,6 +245,16 @@ impl<'a> Driver<'a> {
                     other.map(|o| format!("{}@{}..{}", o.text, o.start, o.end)).unwrap_or_else(|| "nothing".into()),
                     fmt_items(&self.oracle)
                 );
+            }
+        }
+        // X1: the extras the consumer now holds are the extras one-shot lexing holds after the same item, i.e. every
+        // stateful callback (token, skip, error) has run exactly once for everything committed so far
+        if self.def.stateful {
+            self.stats.hit("x1_extras_checked_at_commit");
+            if self.oracle_ex.get(idx) != Some(&ex_after) {
+                fail!("X1", format!("commit:{}", item_tag(&it.text)),
+                    "definition {}: after committing item #{} {}@{}..{} the lexer's extras counter is {} but one-shot lexing of {} holds {} after the same item: a callback ran too often or not at all around a buffer end (one-shot: {})",
+                    self.def.name, idx, it.text, it.start, it.end, ex_after, show_bytes(&self.s[..self.s_eff_len]), self.oracle_ex.get(idx).map(|x| x.to_string()).unwrap_or_else(|| "nothing".into()), fmt_items(&self.oracle));
             }
         }
         self.committed.push(it);
@@ -424,12 +445,13 @@ impl<'a> Driver<'a> {
         let cap = vlen + 2;
         let mut pos = 0usize; // view-relative end of the last commit of this round
         let none_r: Option<usize>;
+        let none_ex: u64;
         let mut round_items = 0usize;
 
         if self.sc.per_item {
             // variant A: a fresh lexer per item, on the rest of the valid buffer
             loop {
-                let out = self.def.lex_with(&view[pos..], partial, self.sc.with_extras, 0, 1);
+                let out = self.def.lex_carry(&view[pos..], partial, self.sc.with_extras, 0, 1, self.carry);
                 self.stats.steps += out.calls as u64;
                 round_items += 1;
                 if round_items > cap {
@@ -444,7 +466,9 @@ impl<'a> Driver<'a> {
                         if partial && it.end == vlen { self.stats.hit(if item_kind(&it.text) { "probe_commit_at_buffer_end" } else { "probe_error_at_buffer_end" }); }
                         let new_pos = it.end;
                         // P1 (model-free) first, then P6 (through the reference model)
-                        self.commit(Item { text: it.text.clone(), start: it.start + off, end: it.end + off }, partial)?;
+                        // the consumer keeps the extras of the lexer that produced the item (it resumes at the item's end)
+                        self.carry = out.extras_after[0];
+                        self.commit(Item { text: it.text.clone(), start: it.start + off, end: it.end + off }, partial, self.carry)?;
                         if partial { self.check_p6(view, pos, &it)?; }
                         if new_pos <= pos {
                             fail!("L1", "no-progress", "definition {}: driver made no progress at buffer offset {}", self.def.name, pos);
@@ -462,23 +486,28 @@ impl<'a> Driver<'a> {
                         let (ns, ne) = out.none_span.unwrap_or((0, 0));
                         self.check_none(view, pos, (ns + pos, ne + pos), out.second.map(|(n, (a, b))| (n, (a + pos, b + pos))), partial)?;
                         none_r = Some(ns + pos);
+                        // variant A resumes at the end of the last item, so it drops this lexer together with its extras
+                        // (skip callbacks between that item and the None position will run again on the next fill); the
+                        // extras the lexer held at None are still checked against the reported position (P3)
+                        none_ex = out.extras_end;
                         break;
                     }
                 }
             }
         } else {
             // variant B: one lexer per fill
-            let out = self.def.lex_with(view, partial, self.sc.with_extras, 0, cap);
+            let out = self.def.lex_carry(view, partial, self.sc.with_extras, 0, cap, self.carry);
             self.stats.steps += out.calls as u64;
             if out.none_span.is_none() {
                 fail!("L1", "runaway", "definition {}: more than {} items from a {}-byte buffer", self.def.name, cap, vlen);
             }
-            for it in &out.items {
+            for (i, it) in out.items.iter().enumerate() {
                 if it.end > vlen || it.start > it.end {
                     fail!("P2", "span-out-of-buffer", "definition {}: item {}@{}..{} lies outside the {}-byte buffer", self.def.name, it.text, it.start, it.end, vlen);
                 }
                 if partial && it.end == vlen { self.stats.hit(if item_kind(&it.text) { "probe_commit_at_buffer_end" } else { "probe_error_at_buffer_end" }); }
-                self.commit(Item { text: it.text.clone(), start: it.start + off, end: it.end + off }, partial)?;
+                self.carry = out.extras_after[i];
+                self.commit(Item { text: it.text.clone(), start: it.start + off, end: it.end + off }, partial, self.carry)?;
                 if partial { self.check_p6(view, pos, it)?; }
                 pos = it.end;
                 if let Some(k) = self.crash_after.as_mut() {
@@ -492,12 +521,22 @@ impl<'a> Driver<'a> {
             let ns = out.none_span.unwrap();
             self.check_none(view, pos, ns, out.second, partial)?;
             none_r = Some(ns.0);
+            // variant B resumes at the reported position and takes the lexer's extras along
+            none_ex = out.extras_end;
+            self.carry = none_ex;
+        }
+        if fin && self.def.stateful {
+            self.stats.hit("x1_extras_checked_at_end");
+            if none_ex != self.oracle_ex_end {
+                fail!("X1", "end", "definition {}: chunked lexing of {} ended with the extras counter at {} but one-shot lexing ends with {}: a callback ran too often or not at all around a buffer end",
+                    self.def.name, show_bytes(&self.s[..self.s_eff_len]), none_ex, self.oracle_ex_end);
+            }
         }
 
         let r = none_r.unwrap_or(pos);
         if partial {
             if self.none_points.len() < 6 {
-                self.none_points.push((off + r, self.committed.len()));
+                self.none_points.push((off + r, self.committed.len(), none_ex));
             }
             self.check_p5(view, r)?;
             let pending = vlen - r;
@@ -569,7 +608,7 @@ impl<'a> Driver<'a> {
         if truncated {
             // the effective input is what was delivered; everything committed so far must be a prefix of ITS one-shot lexing
             self.s_eff_len = self.delivered;
-            self.oracle = self.one_shot(&self.s[..self.s_eff_len]);
+            self.set_oracle();
             self.compute_ref_ok();
             for (i, it) in self.committed.iter().enumerate() {
                 if self.oracle.get(i) != Some(it) {
@@ -589,13 +628,18 @@ impl<'a> Driver<'a> {
         }
         // P3
         let s_eff = &self.s[..self.s_eff_len];
-        for &(r, n) in &self.none_points.clone() {
+        for &(r, n, ex) in &self.none_points.clone() {
             if r > s_eff.len() { continue; }
-            let rest = self.def.lex(s_eff, false, r, s_eff.len() + 2);
+            // an ordinary lexer over the whole input, put at the reported position with the extras the partial lexer held there
+            let rest = self.def.lex_carry(s_eff, false, false, r, s_eff.len() + 2, ex);
             self.stats.steps += rest.calls as u64;
             if rest.items[..] != self.oracle[n.min(self.oracle.len())..] {
-                fail!("P3", "resume", "definition {}: a partial lexer returned None at position {} after {} items; lexing {} from there gives {} but the remaining one-shot items are {}",
-                    self.def.name, r, n, show_bytes(s_eff), fmt_items(&rest.items), fmt_items(&self.oracle[n.min(self.oracle.len())..]));
+                fail!("P3", "resume", "definition {}: a partial lexer returned None at position {} after {} items{}; lexing {} from there gives {} but the remaining one-shot items are {}",
+                    self.def.name, r, n, if self.def.stateful { format!(" with its extras counter at {}", ex) } else { String::new() }, show_bytes(s_eff), fmt_items(&rest.items), fmt_items(&self.oracle[n.min(self.oracle.len())..]));
+            }
+            if self.def.stateful && rest.extras_end != self.oracle_ex_end {
+                fail!("X1", "resume", "definition {}: a partial lexer returned None at position {} with its extras counter at {}; lexing {} from there with those extras ends with the counter at {} but one-shot lexing ends with {}",
+                    self.def.name, r, ex, show_bytes(s_eff), rest.extras_end, self.oracle_ex_end);
             }
             self.stats.hit("p3_resume_points_checked");
         }
@@ -700,12 +744,12 @@ fn exec(def: &DefInfo, rf: &Ref, sc: &Scenario) -> Outcome_ {
     }
     let mut d = Driver {
         def, rf, s: &sc.input, sc, is_str,
-        oracle: Vec::new(), s_eff_len: sc.input.len(), ref_ok: false,
-        buf: Vec::new(), base: 0, resume: 0, delivered: 0, high_water: 0, committed: Vec::new(), none_points: Vec::new(), crash_after: None,
+        oracle: Vec::new(), oracle_ex: Vec::new(), oracle_ex_end: 0, s_eff_len: sc.input.len(), ref_ok: false,
+        buf: Vec::new(), base: 0, resume: 0, delivered: 0, high_water: 0, committed: Vec::new(), carry: 0, none_points: Vec::new(), crash_after: None,
         stats: Stats::default(),
     };
     let r = catch(|| {
-        d.oracle = d.one_shot(d.s);
+        d.set_oracle();
         d.compute_ref_ok();
         d.run()
     });
@@ -1046,7 +1090,7 @@ fn main() {
     result["seed"] = json!(seed);
     result["build"] = build_info!();
     result["tag"] = json!(tag);
-    result["definitions"] = json!(world.defs.iter().map(|(d, r)| json!({"name": d.name, "utf8": d.utf8, "patterns": d.pats.len(), "lookaround": r.has_look, "reference_dfa_states": r.states})).collect::<Vec<_>>());
+    result["definitions"] = json!(world.defs.iter().map(|(d, r)| json!({"name": d.name, "utf8": d.utf8, "stateful": d.stateful, "patterns": d.pats.len(), "lookaround": r.has_look, "reference_dfa_states": r.states})).collect::<Vec<_>>());
     result["failures"] = json!(failures_json);
     result["failure_classes"] = json!(batch.failures.len());
     result["unstable_failure_classes"] = json!(unstable);
